@@ -234,7 +234,7 @@ fn random_ops(rng: &mut Rng) -> Vec<AOp> {
                 let l = rng.below(5);
                 AOp::Write(rng.bytes(l, b"XYZ\n"))
             }
-            _ => AOp::Read(rng.below(3), [0usize, 0, 1, 2, 3, 4, 8][rng.below(7)]),
+            _ => AOp::Read(rng.below(3), [0usize, 0, 1, 2, 3, 4, 8, 9, 16, 33][rng.below(10)]),
         })
         .collect()
 }
@@ -257,6 +257,23 @@ pub fn run(mode: &str, thorough: bool, seed: u64, w: &mut impl std::io::Write) {
                         chain_line(&s1, &s2, ops, w);
                         n += 1;
                     }
+                }
+            }
+        }
+        // larger ReadBufs, every error kind, short fills relative to the capacity
+        let a3 = [RAct::Data(3, false), RAct::Data(20, false), RAct::Eof, RAct::Err(2), RAct::Err(3), RAct::Pending, RAct::Data(9, true)];
+        let big: Vec<u8> = (0..40u8).map(|i| 0x41 + i % 26).collect();
+        let bufs4 = [(0usize, 16usize), (3, 4), (2, 33)];
+        let scheds4: Vec<Vec<AOp>> = seqs(&bufs4, 4).into_iter().filter(|s| s.len() == 4 || s.len() == 2).map(|s| s.into_iter().map(|(p, c)| AOp::Read(p, c)).collect()).collect();
+        for r1 in seqs(&a3, 3) {
+            if r1.is_empty() {
+                continue;
+            }
+            for r2 in [vec![], vec![RAct::Data(3, false)], vec![RAct::Pending, RAct::Data(17, false)]] {
+                let (s1, s2) = (ASrw::new(1, &big, r1.clone()), ASrw::new(2, b"SECONDsecondSECONDsecond", r2.clone()));
+                for ops in &scheds4 {
+                    chain_line(&s1, &s2, ops, w);
+                    n += 1;
                 }
             }
         }
@@ -298,6 +315,28 @@ pub fn run(mode: &str, thorough: bool, seed: u64, w: &mut impl std::io::Write) {
                         take_line(&s, limit, ops, w);
                         n += 1;
                     }
+                }
+            }
+        }
+        let a3 = [RAct::Data(3, false), RAct::Data(20, false), RAct::Eof, RAct::Err(2), RAct::Pending, RAct::Data(9, true)];
+        let big: Vec<u8> = (0..40u8).map(|i| 0x41 + i % 26).collect();
+        let bufs4 = [(0usize, 16usize), (3, 4), (2, 33)];
+        let scheds4: Vec<Vec<AOp>> = seqs(&bufs4, 4).into_iter().filter(|s| s.len() == 4 || s.len() == 2).map(|s| s.into_iter().map(|(p, c)| AOp::Read(p, c)).collect()).collect();
+        for r in seqs(&a3, 3) {
+            let s = ASrw::new(1, &big, r.clone());
+            for limit in [8u64, 16, 17, 32, 33, (1 << 32) - 1, 1 << 32, (1 << 32) + 1, u64::MAX - 1] {
+                for ops in &scheds4 {
+                    take_line(&s, limit, ops, w);
+                    n += 1;
+                }
+            }
+        }
+        for limit in [65535u64, 65536, 65537, 70000, (1 << 32) + 5] {
+            for d in [65535usize, 65536, 65537, 70001] {
+                for r in [vec![], vec![RAct::Data(3, false)], vec![RAct::Pending, RAct::Data(70000, true)]] {
+                    let s = ASrw::new(1, &big, r);
+                    take_line(&s, limit, &[AOp::Read(1, d), AOp::Read(0, 4)], w);
+                    n += 1;
                 }
             }
         }
